@@ -876,14 +876,20 @@ pub fn c11(tier: &str) -> ! {
             nested: false,
             check_directory: true,
             prefix: "C11",
+            cross_cfg: false,
         };
         let all_cfgs = ["T300", "T300n", "M2", "M2n"];
         let hs: Vec<_> = covering_histories(&all_cfgs).into_iter().chain(shrink_history()).collect();
         if t {
-            run_crash(&mut rep, "crash-leftovers/covering", hs, spec.clone(), crate::report::scaled(Duration::from_secs(900)), own);
+            run_crash(&mut rep, "crash-leftovers/covering", hs.clone(), spec.clone(), crate::report::scaled(Duration::from_secs(900)), own);
+            run_crash(&mut rep, "crash-leftovers/covering/recovered-with-other-options", hs, CrashSpec { cross_cfg: true, ..spec.clone() }, crate::report::scaled(Duration::from_secs(900)), own);
+            run_crash(&mut rep, "crash-leftovers/generated<=3/recovered-with-other-options", generated_histories(&all_cfgs, 3), CrashSpec { cross_cfg: true, ..spec.clone() }, crate::report::scaled(Duration::from_secs(900)), own);
             run_crash(&mut rep, "crash-leftovers/generated<=4", generated_histories(&all_cfgs, 4), spec, crate::report::scaled(Duration::from_secs(900)), own);
         } else {
-            run_crash(&mut rep, "crash-leftovers/covering", hs, spec.clone(), Duration::from_secs(10), own);
+            run_crash(&mut rep, "crash-leftovers/covering", hs.clone(), spec.clone(), Duration::from_secs(10), own);
+            // options changed between the crash and the next open: every image also recovered with
+            // each of the history's other configurations
+            run_crash(&mut rep, "crash-leftovers/covering/recovered-with-other-options", hs, CrashSpec { cross_cfg: true, ..spec.clone() }, Duration::from_secs(10), own);
             run_crash(&mut rep, "crash-leftovers/generated<=2", generated_histories(&all_cfgs, 2), spec, Duration::from_secs(10), own);
         }
     }
